@@ -331,10 +331,13 @@ def default_jobs(mod, pid, tier, seed):
             jobs.append({'kind': 'hyp', 'pid': pid, 'tier': tier, 'shard': sh,
                          'seed': derive_seed(seed, pid, 'hyp', sh),
                          'n': n // nsh + (1 if sh < n % nsh else 0)})
-    corpus = getattr(mod, 'CORPUS', None)
-    cdir = os.path.join(VERIF, 'corpus', corpus) if corpus else None
-    if cdir and os.path.isdir(cdir):
-        files = sorted(os.path.join('corpus', corpus, f) for f in os.listdir(cdir) if f.endswith('.json'))
+    corpus = getattr(mod, 'CORPUS', None) or []
+    files = []
+    for cname in ([corpus] if isinstance(corpus, str) else corpus):
+        cdir = os.path.join(VERIF, 'corpus', cname)
+        if os.path.isdir(cdir):
+            files += sorted(os.path.join('corpus', cname, f) for f in os.listdir(cdir) if f.endswith('.json'))
+    if files:
         for i in range(4):
             if files[i::4]:
                 jobs.append({'kind': 'corpus', 'pid': pid, 'tier': tier, 'name': f'corpus-{i}', 'paths': files[i::4]})
@@ -342,6 +345,9 @@ def default_jobs(mod, pid, tier, seed):
         for j in mod.jobs(tier, seed):
             j.update({'kind': 'custom', 'pid': pid, 'tier': tier})
             jobs.append(j)
+    only = os.environ.get('VERIF_ONLY')   # development aid: run only the jobs whose name contains this text
+    if only:
+        jobs = [j for j in jobs if only in str(j.get('name', j.get('kind')))]
     return jobs
 
 
